@@ -242,6 +242,10 @@ def obligations(tier):
     dup_kinds = ["altloc-pair-A-first", "altloc-pair-B-first", "altloc-pair-alias-name", "atom-same-residue", "atom-insertion-code", "atom-new-residue"]
     for k in range(len(dup_kinds)):
         obs.append(Obligation(f"ingest-first={dup_kinds[k]}", c07.h_records, dict(nlines=3 if tier == "quick" else 4, kinds=dup_kinds, models="plain", drop=False, first=k), group="ingest", time_cap=1500, max_paths=100000))
+    # a multi-model file contributes its first model once: no residue of model 1 is filed twice when the second MODEL record
+    # ends the read (C07's harness; round 6)
+    for m in ("two-models-from-0", "two-models-same-number"):
+        obs.append(Obligation(f"ingest-{m}", c07.h_records, dict(nlines=1 if tier == "quick" else 2, kinds=c07.QUICK_KINDS, models=m, drop=False), group="ingest", time_cap=1500, max_paths=100000))
     # --drop-water removes water records only: no other residue (RNA "A", hydroxide "OH", ...) vanishes with them (C07's harness)
     obs += c07._drop_name_obligations()
     # every atom of the list handed to the printer is written, whatever the chain changes and the layout (C08's harness)
